@@ -46,6 +46,7 @@ def cases(tier, seed):
             spec["target"] = {"kind": "scripted", "c": spec["target"]["c"], "where": "in",
                               "search": pats[int(rng.integers(len(pats)))], "poll": pats[int(rng.integers(len(pats)))], "other": "F"}
         out.append({"spec": spec})
+    out += C.option_variation_slice("C13", tier, seed)
     return out
 
 
